@@ -31,6 +31,20 @@ FUN_MODELS = {
 }
 
 
+# vacuity control: every operation a bounded model is meant to exercise must occur among its transitions
+EXPECTED_OPS = {
+    "C01": ["add", "sub", "mul"], "C02": ["div", "rem", "div_rem"], "C04": ["and", "or", "xor", "not"],
+    "C05": ["shl", "shr", "shl_in", "shr_in"], "C06": ["rotl", "rotr"],
+    "C07": ["push", "pop", "set", "resize", "truncate", "sign_extend", "append", "prepend", "insert", "extend", "collect"],
+    "C08": ["copy_range", "split_off", "split", "first", "last"], "C09": ["eq", "ne", "lt", "le", "gt", "ge", "pcmp"],
+    "C11": ["from_int", "to_int", "from_slice"], "C12": ["convert", "new_inner", "clone"],
+    "C13": ["to_vec", "write", "from_bytes", "read"], "C14": ["fmt"], "C15": ["from_binary", "from_hex"],
+    "C16": ["leading_zeros", "leading_ones", "trailing_zeros", "trailing_ones", "significant_bits", "is_zero"],
+    "C19": ["zeros", "ones", "push", "resize", "sign_extend", "append", "prepend", "insert", "extend", "collect"],
+    "C20": ["add", "sub", "mul", "div", "rem", "and", "or", "xor", "shl", "shr"],
+}
+
+
 def cfg_text(nxt, inv, ls, lo):
     return ("INIT MCInit\nNEXT %s\nINVARIANT %s\nCONSTANTS\n  Ls = %d\n  Lo = %d\nCHECK_DEADLOCK FALSE\n" % (nxt, inv, ls, lo))
 
@@ -145,6 +159,10 @@ def run_fun_model(prop, tier, bins, workdir, timeout_s):
             continue
         if summ["transitions"] != emitted:
             res["tool_errors"].append("replay (%s) consumed %d of %d emitted transitions" % (prof, summ["transitions"], emitted))
+        missing = [o for o in EXPECTED_OPS.get(prop, []) if summ.get("by_op", {}).get(o, 0) == 0]
+        if missing:
+            res["tool_errors"].append("vacuity: the bounded model %s never exercised %s" % (res["name"], ", ".join(missing)))
+        res["transitions_by_operation"] = summ.get("by_op", {})
         res["replayed"] += summ["transitions"]
         res["replay_execs"] += summ["execs"]
         res["distinct"] = max(res["distinct"], summ["distinct_nontrivial"])
@@ -176,7 +194,7 @@ def run_models(prop, tier, seed, bins, workdir):
     for r in runs:
         total["states"] += r["states"]
         total["transitions"] += r["transitions"]
-        total["models"].append({k: r[k] for k in ("name", "states", "transitions", "discharged", "note") if k in r} | {"emitted": r.get("emitted", 0)})
+        total["models"].append({k: r[k] for k in ("name", "states", "transitions", "discharged", "note", "transitions_by_operation") if k in r} | {"emitted": r.get("emitted", 0)})
         total["violations"].extend(r["violations"])
         total["tool_errors"].extend(r["tool_errors"])
         total["replayed"] += r["replayed"]
